@@ -199,3 +199,22 @@ func runPyLayout(p *Program) (*pyLayouts, error) {
 	}
 	return &pl, nil
 }
+
+type pyOffsetFact struct {
+	OK     bool   `json:"ok"`
+	Where  string `json:"where"`
+	Detail string `json:"detail"`
+}
+
+func runPyOffsets(p *Program) (map[string]pyOffsetFact, error) {
+	script := filepath.Join(verifDir, "checker", "pyoffsets.py")
+	out, err := exec.Command("python3", script, p.RepoRoot).Output()
+	if err != nil {
+		return nil, fmt.Errorf("pyoffsets.py: %v", err)
+	}
+	res := map[string]pyOffsetFact{}
+	if err := json.Unmarshal(out, &res); err != nil {
+		return nil, err
+	}
+	return res, nil
+}
